@@ -170,7 +170,7 @@ def gen_g0(r, name):
         src = (f"def {name}(l: Parameter[Qlist[bool, {n}]], a: bool, m: Parameter[Qlist[bool, {n}]]) -> bool:\n    r = a\n    for x in l:\n        for y in m:\n"
                f"            r = r {op2} (x {op1} y)\n    return r\n")
     elif t == "minmax":
-        n = r.randint(2, 3)
+        n = r.choice([2, 3, 3, 4, 5, 5, 6, 7])  # longer lists too: the rewriting of min / max may depend on the operand count
         params, args, ret = [("p", f"Qlist[Qint[2], {n}]")], [("x", "Qint[2]")], "bool"
         f_ = r.choice(["max", "min"])
         src = f"def {name}(p: Parameter[Qlist[Qint[2], {n}]], x: Qint[2]) -> bool:\n    return x {r.choice(['<', '==', '>='])} {f_}(p)\n"
